@@ -51,8 +51,120 @@ type c12Hook struct {
 
 // c12State carries the context shared by the C12 helpers.
 type c12State struct {
-	c       *eng.Ctx
-	anchors map[*ssa.Function]bool
+	c         *eng.Ctx
+	anchors   map[*ssa.Function]bool
+	providers map[*ssa.Function]int // memo of provider: error result index, -1 = not a provider
+}
+
+// c12Witness is a call whose result #errIdx is nil only if ClientFor(host) succeeded.
+type c12Witness struct {
+	call   ssa.CallInstruction
+	errIdx int
+}
+
+func (w c12Witness) isErr(v ssa.Value) bool {
+	cc, i := eng.CallResultOf(v)
+	return cc != nil && ssa.CallInstruction(cc) == w.call && i == w.errIdx
+}
+
+// provider reports whether g is a wrapper of ClientFor whose last result, an error, is nil
+// only when ClientFor succeeded (the prologue "find the request's host, ask for its cluster"
+// extracted into a helper): g holds exactly one witness call W (ClientFor or another
+// provider) and every return of g either sits on W's err == nil edge, or returns W's own
+// error, or returns a freshly made (non-nil) error. It returns the index of the error result.
+func (s *c12State) provider(g *ssa.Function) (int, bool) {
+	if idx, seen := s.providers[g]; seen {
+		return idx, idx >= 0
+	}
+	s.providers[g] = -1
+	if g == nil || g.Blocks == nil || !eng.Analysable(g) || s.anchors[g] {
+		return -1, false
+	}
+	res := g.Signature.Results()
+	if res.Len() < 2 || eng.TypeName(res.At(res.Len()-1).Type()) != "error" {
+		return -1, false
+	}
+	errIdx := res.Len() - 1
+	var ws []c12Witness
+	for _, ci := range eng.Calls(g) {
+		if eng.IsCall(ci, c12ClientFor) {
+			ws = append(ws, c12Witness{ci, 2})
+		} else if f := ci.Common().StaticCallee(); f != nil && f != g {
+			if idx, ok := s.provider(f); ok {
+				ws = append(ws, c12Witness{ci, idx})
+			}
+		}
+	}
+	if len(ws) != 1 {
+		return -1, false
+	}
+	w := ws[0]
+	ok := true
+	n := 0
+	eng.Instrs(g, func(ins ssa.Instruction) {
+		r, isRet := ins.(*ssa.Return)
+		if !isRet || r.Block() == g.Recover {
+			return
+		}
+		n++
+		if eng.GuardedByNil(r, w.isErr, true) {
+			return
+		}
+		v := c12RetVal(r, errIdx)
+		if v == nil {
+			ok = false
+			return
+		}
+		for _, l := range s.c.Slicer().Leaves(v, func(x ssa.Value) bool {
+			cc, _ := eng.CallResultOf(x)
+			return cc != nil
+		}) {
+			cc, _ := eng.CallResultOf(l)
+			switch {
+			case w.isErr(l):
+			case cc != nil && eng.IsCall(cc, "errors.New", "fmt.Errorf"):
+			default:
+				ok = false
+			}
+		}
+	})
+	if !ok || n == 0 {
+		return -1, false
+	}
+	s.providers[g] = errIdx
+	return errIdx, true
+}
+
+// c12AnswerReturns returns the return statements that produce the values r yields: r itself,
+// or — when r hands on all results of one call of a repository function (`return g(…)`) —
+// the returns of that function (depth levels).
+func c12AnswerReturns(r *ssa.Return, depth int) []*ssa.Return {
+	if depth > 0 && len(r.Results) > 1 {
+		var call *ssa.Call
+		same := true
+		for i := range r.Results {
+			cc, idx := eng.CallResultOf(c12RetVal(r, i))
+			if cc == nil || idx != i || (call != nil && cc != call) {
+				same = false
+				break
+			}
+			call = cc
+		}
+		if same && call != nil {
+			if g := call.Call.StaticCallee(); g != nil && g != r.Parent() && eng.Analysable(g) && g.Signature.Results().Len() == len(r.Results) {
+				var out []*ssa.Return
+				eng.Instrs(g, func(ins ssa.Instruction) {
+					if rr, ok := ins.(*ssa.Return); ok && rr.Block() != g.Recover {
+						out = append(out, c12AnswerReturns(rr, depth-1)...)
+					}
+				})
+				if len(out) > 0 {
+					return out
+				}
+			}
+		}
+	}
+	return []*ssa.Return{r}
 }
 
 // ---------------------------------------------------------------------------------------
@@ -166,6 +278,8 @@ func (s *c12State) hostOrigin(v ssa.Value, depth int) c12HostFact {
 		return cc != nil && idx == 0 && eng.IsCall(cc, c12ExtraFrom)
 	}
 	isEmpty := func(x ssa.Value) bool { k, ok := eng.StringConst(x); return ok && k == "" }
+	isOwnField := func(x ssa.Value) bool { _, _, ok := c12OwnFieldLoad(x); return ok }
+	okFields := map[ssa.Value]bool{} // own-field loads whose every stored value was accepted in pass 1
 	helperParam := func(x ssa.Value) *ssa.Parameter {
 		p, ok := x.(*ssa.Parameter)
 		if ok && types.Identical(p.Type(), types.Typ[types.String]) && !s.anchors[p.Parent()] {
@@ -176,10 +290,40 @@ func (s *c12State) hostOrigin(v ssa.Value, depth int) c12HostFact {
 
 	// pass 1
 	nHost := 0
-	for _, leaf := range sl.Leaves(v, func(x ssa.Value) bool { return isHostLoad(x) || isToLower(x) }) {
+	for _, leaf := range sl.Leaves(v, func(x ssa.Value) bool { return isHostLoad(x) || isToLower(x) || isOwnField(x) }) {
 		switch {
 		case isHostLoad(leaf):
 			nHost++
+		case isOwnField(leaf) && depth > 0:
+			// the state a closure captured, kept in a field of an object instead (closure → method
+			// on a named type): the field holds what is stored into it anywhere in the repository
+			typ, field, _ := c12OwnFieldLoad(leaf)
+			f := c12HostFact{ok: true, bases: map[ssa.Value]bool{}}
+			sts := eng.StoresToField(s.c.W.AllRepoFuncs(), typ, field)
+			if len(sts) == 0 {
+				f = c12HostFact{why: "derives from field " + shortName(typ) + "." + field + " which is never assigned"}
+			}
+			for _, st := range sts {
+				// only fields set once, while the object is being built (`&T{host: h}`), stand for a
+				// captured variable; a field assigned on an existing object is state shared between
+				// requests and may hold the host of another one
+				if _, fresh := st.Addr.(*ssa.FieldAddr).X.(*ssa.Alloc); !fresh {
+					f = c12HostFact{why: "field " + shortName(typ) + "." + field + " is assigned on an existing object in " + eng.FuncName(st.Parent()) + " (state shared between requests)"}
+					break
+				}
+				g := s.hostOrigin(st.Val, depth-1)
+				if !g.ok {
+					f = c12HostFact{why: "field " + shortName(typ) + "." + field + " assigned in " + eng.FuncName(st.Parent()) + ": " + g.why}
+					break
+				}
+				for b := range g.bases {
+					f.bases[b] = true
+				}
+			}
+			if merge(f) {
+				nHost++
+				okFields[leaf] = true
+			}
 		case isToLower(leaf):
 			cc, _ := eng.CallResultOf(leaf)
 			if merge(s.hostOrigin(cc.Call.Args[0], depth)) {
@@ -213,30 +357,209 @@ func (s *c12State) hostOrigin(v ssa.Value, depth int) c12HostFact {
 		return out
 	}
 	// pass 2
-	for _, leaf := range sl.Leaves(v, func(x ssa.Value) bool { return isFrom0(x) || isToLower(x) }) {
+	for _, leaf := range sl.Leaves(v, func(x ssa.Value) bool { return isFrom0(x) || isToLower(x) || okFields[x] }) {
 		switch {
 		case isFrom0(leaf):
 			out.bases[leaf] = true
-		case isToLower(leaf), isEmpty(leaf), helperParam(leaf) != nil:
+		case isToLower(leaf), isEmpty(leaf), helperParam(leaf) != nil, okFields[leaf]:
 		default:
 			bad("reads Hostname of an ExtraRequestInfo that is not the result of ExtraRequestInfoFrom(ctx) but %s", c12Describe(leaf))
 		}
 	}
-	// pass 3
-	for _, leaf := range sl.WithArgs().Leaves(v, nil) {
-		switch l := leaf.(type) {
+	// pass 3: what the ExtraRequestInfo is read from. Walking through call operands reaches the
+	// parameters the value is computed from. Accepted: the anchor's context; a string parameter
+	// of a helper (decided at its callers in pass 1); a context parameter of a helper when every
+	// caller passes the anchor's context on (the prologue moved into a helper); the bare receiver
+	// of a method, which is reached through `a.helper(ctx)` and carries no request data by
+	// itself. State read out of a parameter (`a.savedCtx`, `r.info`) is refused: it may belong to
+	// another request.
+	sl.WithArgs().Walk(v, func(n eng.Node) bool {
+		if !out.ok || okFields[n.V] {
+			return false
+		}
+		if cc, isCall := n.V.(*ssa.Call); isCall && eng.IsCall(cc, "context.Background", "context.TODO") {
+			bad("the ExtraRequestInfo is read from a fresh root context, not from the context of the request being served")
+			return false
+		}
+		if _, isLoad := n.V.(*ssa.UnOp); isLoad || c12IsField(n.V) {
+			if _, path := eng.AccessPath(n.V); len(path) > 0 {
+				if p := c12RootParam(n.V); p != nil && !isHostLoad(n.V) {
+					bad("the ExtraRequestInfo is not read from the context of the request being served but from state kept in %s (%s)", c12Describe(p), eng.PathString(n.V))
+					return false
+				}
+			}
+		}
+		if !n.Leaf {
+			return true
+		}
+		switch l := n.V.(type) {
 		case *ssa.Global:
 			bad("derives from %s", c12Describe(l))
 		case *ssa.Parameter:
-			if helperParam(l) != nil {
-				continue
-			}
-			if !s.anchors[l.Parent()] || eng.TypeName(l.Type()) != "context.Context" {
+			switch {
+			case helperParam(l) != nil:
+			case s.anchors[l.Parent()] && eng.TypeName(l.Type()) == "context.Context":
+			case c12IsReceiver(l):
+			case !s.anchors[l.Parent()] && eng.TypeName(l.Type()) == "context.Context" && depth > 0:
+				if why := s.forCallers(l, func(arg ssa.Value) string { return s.ctxOrigin(arg, depth-1) }); why != "" {
+					bad("%s", why)
+				}
+			default:
 				bad("the ExtraRequestInfo is not read from the context of the request being served but from %s", c12Describe(l))
 			}
 		}
-	}
+		return true
+	})
 	return out
+}
+
+// ctxOrigin returns "" when the context value v is computed from nothing but the context
+// parameter of an anchor method (directly, through context.With…, or handed down through
+// helpers all of whose callers do the same).
+func (s *c12State) ctxOrigin(v ssa.Value, depth int) string {
+	why := ""
+	s.c.Slicer().WithArgs().Walk(v, func(n eng.Node) bool {
+		if why != "" {
+			return false
+		}
+		if cc, isCall := n.V.(*ssa.Call); isCall && eng.IsCall(cc, "context.Background", "context.TODO") {
+			why = "the context is a fresh root context, not that of the request being served"
+			return false
+		}
+		if _, isLoad := n.V.(*ssa.UnOp); isLoad || c12IsField(n.V) {
+			if _, path := eng.AccessPath(n.V); len(path) > 0 {
+				if p := c12RootParam(n.V); p != nil {
+					why = "the context is read from state kept in " + c12Describe(p) + " (" + eng.PathString(n.V) + "), not from the request being served"
+					return false
+				}
+			}
+		}
+		if !n.Leaf {
+			return true
+		}
+		switch l := n.V.(type) {
+		case *ssa.Global:
+			why = "the context derives from " + c12Describe(l)
+		case *ssa.Parameter:
+			switch {
+			case s.anchors[l.Parent()] && eng.TypeName(l.Type()) == "context.Context":
+			case c12IsReceiver(l):
+			case !s.anchors[l.Parent()] && eng.TypeName(l.Type()) == "context.Context" && depth > 0:
+				why = s.forCallers(l, func(arg ssa.Value) string { return s.ctxOrigin(arg, depth-1) })
+			default:
+				why = "the context is computed from " + c12Describe(l) + ", not from the context of the request being served"
+			}
+		}
+		return true
+	})
+	return why
+}
+
+// c12IsReceiver reports whether p is the receiver of a method.
+func c12IsReceiver(p *ssa.Parameter) bool {
+	fn := p.Parent()
+	return fn != nil && fn.Signature.Recv() != nil && len(fn.Params) > 0 && fn.Params[0] == p
+}
+
+func c12IsField(v ssa.Value) bool {
+	_, ok := v.(*ssa.Field)
+	return ok
+}
+
+// c12RootParam returns the parameter a field/element access path is rooted at (nil: the path
+// starts at something else, e.g. a call result). A variable captured by a closure is
+// followed to the enclosing function when it is a parameter spilled into a cell.
+func c12RootParam(v ssa.Value) *ssa.Parameter {
+	for i := 0; i < 8; i++ {
+		root, _ := eng.AccessPath(v)
+		switch r := root.(type) {
+		case *ssa.Parameter:
+			return r
+		case *ssa.FreeVar:
+			fn := r.Parent()
+			idx := -1
+			for k, fv := range fn.FreeVars {
+				if fv == r {
+					idx = k
+				}
+			}
+			var bound ssa.Value
+			n := 0
+			if p := fn.Parent(); p != nil && idx >= 0 {
+				eng.Instrs(p, func(ins ssa.Instruction) {
+					if mc, ok := ins.(*ssa.MakeClosure); ok && mc.Fn == ssa.Value(fn) && idx < len(mc.Bindings) {
+						bound = mc.Bindings[idx]
+						n++
+					}
+				})
+			}
+			if n != 1 || bound == nil {
+				return nil
+			}
+			// the captured cell: a parameter spilled into it (single store) or an outer free variable
+			if a, ok := bound.(*ssa.Alloc); ok {
+				var val ssa.Value
+				stores := 0
+				if a.Referrers() != nil {
+					for _, ref := range *a.Referrers() {
+						if st, isSt := ref.(*ssa.Store); isSt && st.Addr == ssa.Value(a) {
+							val = st.Val
+							stores++
+						}
+					}
+				}
+				if stores != 1 {
+					return nil
+				}
+				v = val
+				continue
+			}
+			v = bound
+			continue
+		}
+		return nil
+	}
+	return nil
+}
+
+// c12OwnFieldLoad reports whether v loads an unexported field of a struct type declared in
+// the repository through a pointer that is not a local cell (those are followed by the
+// slicer itself); it returns the type ("pkgpath.Type") and the field name. Such a field can
+// only be written by direct field stores of its own package, all of which
+// eng.StoresToField finds (copies of whole structs copy values that were stored the same way).
+func c12OwnFieldLoad(v ssa.Value) (typ, field string, ok bool) {
+	ld, isLd := v.(*ssa.UnOp)
+	if !isLd || ld.Op != token.MUL {
+		return "", "", false
+	}
+	fa, isFA := ld.X.(*ssa.FieldAddr)
+	if !isFA {
+		return "", "", false
+	}
+	for b := fa.X; ; {
+		switch n := b.(type) {
+		case *ssa.FieldAddr:
+			b = n.X
+			continue
+		case *ssa.Alloc:
+			return "", "", false
+		}
+		break
+	}
+	t := fa.X.Type()
+	if p, isP := t.Underlying().(*types.Pointer); isP {
+		t = p.Elem()
+	}
+	named, isN := t.(*types.Named)
+	st, isS := t.Underlying().(*types.Struct)
+	if !isN || !isS || named.Obj().Pkg() == nil || !eng.IsRepoPkg(named.Obj().Pkg().Path()) || fa.Field >= st.NumFields() {
+		return "", "", false
+	}
+	f := st.Field(fa.Field)
+	if f.Exported() {
+		return "", "", false
+	}
+	return eng.TypeName(named), f.Name(), true
 }
 
 // forCallers applies check to the argument bound to parameter p at every call site of p's
@@ -291,8 +614,11 @@ func (s *c12State) clientOrigin(v ssa.Value, depth int) string {
 		return "clientset of unknown origin"
 	}
 	for _, l := range leaves {
+		if eng.IsNilConst(l) {
+			continue // no client at all (the failure return of a helper): nothing can be sent through it
+		}
 		if cf := c12ClientForResult(l, 1); cf != nil {
-			if f := s.hostOrigin(eng.Args(cf)[0], 2); !f.ok {
+			if f := s.hostOrigin(eng.Args(cf)[0], 4); !f.ok {
 				return "clientset of a ClientFor whose argument " + f.why
 			}
 			continue
@@ -400,12 +726,12 @@ func (o c12Ordinal) next(fn *ssa.Function, what string) string {
 // ---------------------------------------------------------------------------------------
 
 func c12(c *eng.Ctx) {
-	c.Rule("R1", "host keying: in both webhooks every operation on the per-host cache table is keyed by, and every ClientFor is called with, ExtraRequestInfoFrom(ctx).Hostname of the request being served; the authenticator cached for a host is authenticateTokenForHost(that host); the authenticator invoked / the LRU cache consulted / the review status used come only from that host's entry or that host's review; the clientset used is the result of ClientFor(host). Otherwise a token or decision obtained from cluster A answers a request addressed to cluster B", 19)
-	c.Rule("R2", "ask first, refuse when the cluster cannot be asked: cache lookups and the delegate/review run only on the err == nil edge of ClientFor(host); every return outside that region is a refusal (nil,false / decisionOnError); an Authorize return carrying an error never allows", 19)
+	c.Rule("R1", "host keying: in both webhooks every operation on the per-host cache table is keyed by, and every ClientFor is called with, ExtraRequestInfoFrom(ctx).Hostname of the request being served; the authenticator cached for a host is authenticateTokenForHost(that host); the authenticator invoked / the LRU cache consulted / the review status used come only from that host's entry or that host's review; the clientset used is the result of ClientFor(host). Otherwise a token or decision obtained from cluster A answers a request addressed to cluster B", 18)
+	c.Rule("R2", "ask first, refuse when the cluster cannot be asked: cache lookups and the delegate/review run only on the err == nil edge of ClientFor(host); every return outside that region is a refusal (nil,false / decisionOnError); an Authorize return carrying an error never allows", 17)
 	c.Rule("R3", "decisionOnError is stored only with DecisionDeny; the cache tables are fields of the webhook instance reached through the method receiver, and the webhook packages keep no package-level state", 10)
 	c.Rule("R4", "manager.ClientFor returns the clientset of an endpoint picked from the cluster returned by Get(name); EndpointInfo.clientset is built from the endpoint's own proxy config whose Host is that endpoint's address", 14)
 
-	st := &c12State{c: c, anchors: map[*ssa.Function]bool{}}
+	st := &c12State{c: c, anchors: map[*ssa.Function]bool{}, providers: map[*ssa.Function]int{}}
 	hooks := []*c12Hook{
 		{name: "token", pkg: pkgTokenWH, typ: c12TokenType, anchor: c.MustMethod(pkgTokenWH, "multiClusterTokenReviewAuthenticator", "AuthenticateToken")},
 		{name: "authz", pkg: pkgAuthzWH, typ: c12AuthzType, anchor: c.MustMethod(pkgAuthzWH, "MultiClusterSubjectAccessReviewAuthorizer", "Authorize")},
@@ -457,7 +783,7 @@ func c12R1(st *c12State, h *c12Hook) {
 					continue
 				}
 				nKeys++
-				f := st.hostOrigin(a[0], 2)
+				f := st.hostOrigin(a[0], 4)
 				keyFacts[ci] = f
 				c.Check("R1", fn, ord.next(fn, "caches."+op+" key = request host"), ci.Pos(), f.ok,
 					"the key of the per-host cache table must be the host of the request being served, else entries of different clusters share one slot (same token / same attributes answered from another cluster's cache)"+c12Found(f.why))
@@ -465,7 +791,7 @@ func c12R1(st *c12State, h *c12Hook) {
 			// (b) every ClientFor asks for the request's host
 			if eng.IsCall(ci, c12ClientFor) {
 				nClientFor++
-				f := st.hostOrigin(eng.Args(ci)[0], 2)
+				f := st.hostOrigin(eng.Args(ci)[0], 4)
 				c.Check("R1", fn, ord.next(fn, "ClientFor(request host)"), ci.Pos(), f.ok,
 					"ClientFor must be asked for the host of the request being served, else the review is sent to another cluster"+c12Found(f.why))
 			}
@@ -518,7 +844,7 @@ func c12R1(st *c12State, h *c12Hook) {
 					}
 					n++
 					cc, _ := eng.CallResultOf(l)
-					f := st.hostOrigin(eng.Args(cc)[0], 2)
+					f := st.hostOrigin(eng.Args(cc)[0], 4)
 					if !f.ok {
 						okV, why = false, "authenticateTokenForHost argument "+f.why
 					} else if kf := keyFacts[ci]; !kf.ok || !f.sameBases(kf) {
@@ -564,7 +890,7 @@ func c12R1(st *c12State, h *c12Hook) {
 					}
 					continue
 				}
-				if f := st.hostOrigin(eng.Args(cc)[0], 2); !f.ok {
+				if f := st.hostOrigin(eng.Args(cc)[0], 4); !f.ok {
 					ok, why = false, "authenticateTokenForHost argument "+f.why
 				}
 			}
@@ -624,6 +950,9 @@ func c12R1(st *c12State, h *c12Hook) {
 				ok, why = false, "status of unknown origin"
 			}
 			for _, l := range leaves {
+				if k, isK := l.(*ssa.Const); isK && k.Value == nil {
+					continue // the zero status (failure return of a helper) is nobody's decision
+				}
 				if !stop(l) {
 					ok, why = false, "status comes from "+c12Describe(l)
 				}
@@ -644,47 +973,111 @@ func c12R1(st *c12State, h *c12Hook) {
 func c12R2(st *c12State, h *c12Hook, deny int64) {
 	c := st.c
 	ord := c12Ordinal{}
+	sl := c.Slicer()
 
-	refusal := func(r *ssa.Return) (bool, string) {
+	// refusalVals decides whether the values of one return statement are a refusal.
+	refusalVals := func(r *ssa.Return) (bool, string) {
+		all := func(v ssa.Value, stop func(ssa.Value) bool, ok func(ssa.Value) bool) bool {
+			if v == nil {
+				return false
+			}
+			ls := sl.Leaves(v, stop)
+			for _, l := range ls {
+				if !ok(l) {
+					return false
+				}
+			}
+			return len(ls) > 0
+		}
 		switch h.name {
 		case "token":
 			v0, v1 := c12RetVal(r, 0), c12RetVal(r, 1)
-			if v0 != nil && v1 != nil && eng.IsNilConst(v0) && eng.IsBoolConst(v1, false) {
+			if all(v0, nil, eng.IsNilConst) && all(v1, nil, func(v ssa.Value) bool { return eng.IsBoolConst(v, false) }) {
 				return true, ""
 			}
 			return false, "returns something else than (nil, false, err)"
 		default:
-			v0 := c12RetVal(r, 0)
-			if v0 != nil && eng.FieldLoadOf(v0, h.typ, "decisionOnError") {
-				return true, ""
-			}
-			if k, ok := eng.IntConst(v0); v0 != nil && ok && k == deny {
+			isOnErr := func(v ssa.Value) bool { return eng.FieldLoadOf(v, h.typ, "decisionOnError") }
+			if all(c12RetVal(r, 0), isOnErr, func(v ssa.Value) bool {
+				if isOnErr(v) {
+					return true
+				}
+				k, ok := eng.IntConst(v)
+				return ok && k == deny
+			}) {
 				return true, ""
 			}
 			return false, "returns a decision that is neither decisionOnError nor DecisionDeny"
 		}
 	}
+	// refusal decides a return of an answering function; `return g(…)` with g a repository
+	// function of the same result types is decided on the returns of g.
+	refusal := func(r *ssa.Return) (bool, string) {
+		for _, rr := range c12AnswerReturns(r, 2) {
+			if ok, why := refusalVals(rr); !ok {
+				return false, why
+			}
+		}
+		return true, ""
+	}
 
-	// region(fn): the ClientFor call of fn and the predicate "its error result"
+	// witnesses(fn): the calls of fn whose error result, when nil, shows that the cluster of the
+	// request's host can be asked: ClientFor itself, or a helper that wraps it (c12Provider).
+	witnesses := func(fn *ssa.Function) []c12Witness {
+		var out []c12Witness
+		for _, ci := range eng.Calls(fn) {
+			if eng.IsCall(ci, c12ClientFor) {
+				out = append(out, c12Witness{ci, 2})
+			} else if g := ci.Common().StaticCallee(); g != nil && g != fn {
+				if idx, ok := st.provider(g); ok {
+					out = append(out, c12Witness{ci, idx})
+				}
+			}
+		}
+		return out
+	}
+	answering := func(fn *ssa.Function) bool {
+		return types.Identical(fn.Signature.Results(), h.anchor.Signature.Results())
+	}
+	// region(fn): the functions the body of fn is spread over, without those that obtain their
+	// own client (they are decided on their own ClientFor)
+	region := func(fn *ssa.Function) []*ssa.Function {
+		all := c.W.Region(fn)
+		skip := map[*ssa.Function]bool{}
+		for _, g := range all {
+			if g != fn && len(eng.CallsTo(g, c12ClientFor)) > 0 {
+				for _, x := range c.W.Region(g) {
+					skip[x] = true
+				}
+			}
+		}
+		var out []*ssa.Function
+		for _, g := range all {
+			if !skip[g] {
+				out = append(out, g)
+			}
+		}
+		return out
+	}
+
 	check := func(fn *ssa.Function, consults func(ci ssa.CallInstruction) (string, bool)) {
-		cfs := eng.CallsTo(fn, c12ClientFor)
-		if len(cfs) != 1 {
-			c.Undecided("R2", fn, "single ClientFor", fn.Pos(), fmt.Sprintf("expected exactly one ClientFor call, found %d: the region in which the cluster is known to be askable cannot be delimited", len(cfs)))
+		ws := witnesses(fn)
+		if len(ws) != 1 {
+			c.Undecided("R2", fn, "single ClientFor", fn.Pos(), fmt.Sprintf("expected exactly one ClientFor call, found %d: the region in which the cluster is known to be askable cannot be delimited", len(ws)))
 			return
 		}
-		cf := cfs[0]
-		isErr := func(v ssa.Value) bool {
-			x := c12ClientForResult(v, 2)
-			return x != nil && ssa.CallInstruction(x) == cf
-		}
-		for _, ci := range eng.Calls(fn) {
-			what, ok := consults(ci)
-			if !ok {
-				continue
+		w := ws[0]
+		isErr := w.isErr
+		for _, g := range region(fn) {
+			for _, ci := range eng.Calls(g) {
+				what, ok := consults(ci)
+				if !ok {
+					continue
+				}
+				guarded := eng.GuardedByNil(ci, isErr, true)
+				c.Check("R2", fn, ord.next(fn, what+" only after ClientFor succeeded"), ci.Pos(), guarded,
+					"must run only on the err == nil edge of ClientFor(host): when the cluster is unknown or has no ready endpoint nothing may be answered from a cache or a delegate")
 			}
-			g := eng.GuardedByNil(ci, isErr, true)
-			c.Check("R2", fn, ord.next(fn, what+" only after ClientFor succeeded"), ci.Pos(), g,
-				"must run only on the err == nil edge of ClientFor(host): when the cluster is unknown or has no ready endpoint nothing may be answered from a cache or a delegate")
 		}
 		nRef := 0
 		eng.Instrs(fn, func(ins ssa.Instruction) {
@@ -718,9 +1111,17 @@ func c12R2(st *c12State, h *c12Hook, deny int64) {
 		}
 		return "", false
 	})
-	// closures/helpers that obtain their own client (the token review function)
+	// closures/helpers that obtain their own client (the token review function): those that
+	// answer a request are decided like the entry point; the others must be wrappers of
+	// ClientFor whose error result tells whether it succeeded (used as witnesses above)
 	for _, fn := range h.funcs {
 		if fn == h.anchor || len(eng.CallsTo(fn, c12ClientFor)) == 0 {
+			continue
+		}
+		if !answering(fn) {
+			if _, ok := st.provider(fn); !ok {
+				c.Undecided("R2", fn, "single ClientFor", fn.Pos(), "the function calls ClientFor but neither answers a request itself nor hands ClientFor's error on to its caller in a result that is nil only when ClientFor succeeded: the region in which the cluster is known to be askable cannot be delimited")
+			}
 			continue
 		}
 		check(fn, func(ci ssa.CallInstruction) (string, bool) {
@@ -736,11 +1137,24 @@ func c12R2(st *c12State, h *c12Hook, deny int64) {
 		n := 0
 		eng.Instrs(h.anchor, func(ins ssa.Instruction) {
 			r, isRet := ins.(*ssa.Return)
-			if !isRet || len(r.Results) != 3 || eng.IsNilConst(r.Results[2]) {
+			if !isRet || len(r.Results) != 3 || r.Block() == h.anchor.Recover {
+				return
+			}
+			// `return g(…)` is decided on the returns of g that carry an error
+			ok, why, withErr := true, "", false
+			for _, rr := range c12AnswerReturns(r, 2) {
+				if e := c12RetVal(rr, 2); e != nil && eng.IsNilConst(e) {
+					continue
+				}
+				withErr = true
+				if o, w := refusalVals(rr); !o {
+					ok, why = false, w
+				}
+			}
+			if !withErr {
 				return
 			}
 			n++
-			ok, why := refusal(r)
 			c.Check("R2", h.anchor, ord.next(h.anchor, "error return never allows"), r.Pos(), ok,
 				"a return with a (possibly) non-nil error must carry decisionOnError or DecisionDeny"+c12Found(why))
 		})
